@@ -43,6 +43,10 @@ BLOCKS = [
     O(b"a.txt", b"Numb=0"), O(b"e.txt", b"Name=echo renamed"), O(b"e.txt", b"Numb=0"), O(b"e.txt", b"Numb=3"),
     O(b"e.txt", b"Name=caf\xe9 in latin-1", b"Abstract=r\xe9sum\xe9"), O(b"caf\xe9.txt", b"Name=renamed latin-1 file", b"Numb=1"),
     N(b"Name=latin-1 \xe9ntry", b"Type=0", b"Path=/l\xe9", b"Host=+", b"Port=+"),
+    # "any subset of the lines": blocks that leave out the title, the type, or host and port
+    N(b"Type=1", b"Path=/untitled", b"Host=h.example", b"Port=70"),
+    N(b"Name=No Type", b"Path=/notype", b"Host=+", b"Port=+"),
+    N(b"Name=Bare Path", b"Type=1", b"Path=/bare"),
 ]
 
 
@@ -137,15 +141,17 @@ def expected(base, capfiles, linkfiles):
         n = e["num"]
         return (0, n) if n > 0 else ((1, 0) if n == 0 else (2, n))
 
-    allents.sort(key=lambda e: (group(e), e["name"]))
-    return allents
+    # an entry without a title has no documented place in the order: kept apart (see compare)
+    titled = [e for e in allents if e["name"] is not None]
+    titled.sort(key=lambda e: (group(e), e["name"]))
+    return titled + [e for e in allents if e["name"] is None]
 
 
 def canon(e):
     me = rig.SERVER_NAME.encode()
     host = e["host"] if e["host"] is not None else me
     port = e["port"] if e["port"] is not None else rig.SERVER_PORT
-    return (e["type"], e["name"], e["sel"], host, port, tuple(e["abstract"].split(b"\n")) if e["abstract"] else ())
+    return (e["type"], e["name"] if e["name"] is not None else b"", e["sel"], host, port, tuple(e["abstract"].split(b"\n")) if e["abstract"] else ())
 
 
 def listing(w):
@@ -167,6 +173,14 @@ def listing(w):
 def compare(got, exp):
     """Equal modulo the order inside groups that tie on (number, title)."""
     want = [canon(e) for e in exp]
+    got = list(got)
+    for e in [e for e in exp if e["name"] is None]:
+        c = canon(e)
+        if c not in got:
+            return "the block without a Name= line adds no entry %r; listing: %r" % (c, got)
+        got.remove(c)
+        want.remove(c)
+    exp = [e for e in exp if e["name"] is not None]
     if len(got) != len(want):
         return "listing has %d entries, the manual's reading gives %d: %r vs %r" % (len(got), len(want), [g[1] for g in got], [w[1] for w in want])
     i = 0
